@@ -13,7 +13,8 @@ def check_call(cell, cfg, args):
 
 
 def generate(tier):
-    cells = select_cells('C03', tier, list(H.CATALOG.values()), 1)
+    cells = select_cells('C03', tier, list(H.CATALOG.values()), 3,
+                         keep=('types',))
     if tier == 'quick':
         # -g builds carry the statement-boundary stack check
         cfgs = lambda c: [3 + rot(c.cid, seed() + 3, 3)]  # noqa: E731
